@@ -98,7 +98,7 @@ FRAME_THOROUGH = FRAME_QUICK + [
     ("c02", "area_envelope_a_severed2"),
     ("c02", "area_encrypt_calg0"),
     ("c02", "area_parameters_c"),
-    ("c03", "hierarchy_expansion"),
+    ("c03", "hierarchy_expansion_json"),
     ("c03", "roundtrip_textmap_entries2"),
     ("c05", "digest_and_size_of_envelope"),
     ("c05", "dependency_nesting"),
